@@ -1443,6 +1443,13 @@ func (s *BgpServer) rtcVPNCandidates(peer *peer, isWithdraw bool, rt bgp.Extende
 		raw := s.globalRib.GetPathsByRT(rt, fs)
 		paths := make([]*table.Path, 0, len(raw))
 		for _, p := range raw {
+			// the index also holds the non-best ADD-PATH paths of an NLRI; without ADD-PATH
+			// send the peer is only ever told the best one
+			if !peer.isAddPathSendEnabled(p.GetFamily()) {
+				if dst := s.globalRib.GetDestination(p); dst == nil || dst.GetBestPath(peer.TableID(), peer.AS()) != p {
+					continue
+				}
+			}
 			if isWithdraw {
 				p = p.Clone(true)
 			}
